@@ -116,6 +116,25 @@ CHECKS["C03"] = dict(
          "recorded finding F30 (matched by the case tag multi_offset). n_iter=0, n_threads=1 here (C11, C04 cover the rest).",
     ref="7/C03")
 
+CHECKS["C14"] = dict(
+    technique="property-based testing (Hypothesis): the C03 reference evaluated on independently masked / deleted sequences; explicit zero-row/zero-column invariants for the nullified mask; transform-vs-fit differential",
+    text="C03-style cases forced to remove at least one token and keep one, with mask_string unset / set and nullify_mask, for the four "
+         "sequence co-occurrence vectorizers, the tree vectorizer (C15 reference) and NgramVectorizer (C06 reference, fit and transform "
+         "on a second corpus). The expected sequences are built in Python (deletion vs in-place replacement by index len(kept)); the mask "
+         "must be exactly one extra last dictionary entry; nullified: mask row and every *_mask column are zero and all other cells equal "
+         "the reference with masked contexts weighted zero before normalisation. Exploration.",
+    note="Prunings that remove every token (vocabulary = mask only) are outside the quantifier and skipped (label all-removed). "
+         "F30 (multiset offset) and F12 (subgram unigrams) are known findings that surface here through the shared references.",
+    ref="7/C14")
+CHECKS["C11"] = dict(
+    technique="property-based testing (Hypothesis) against a dense float64 re-implementation of the documented EM / epsilon procedure, plus range / column-sum / support invariants",
+    text="C03 corpora and window settings with n_iter 0-3, generic epsilon values and n_threads 1-3 for the four vectorizers; the result "
+         "is compared (rtol 1e-3, atol 1e-5) with an independent dense implementation that starts from the C03 reference counts and "
+         "replays normalise / threshold / E-step / M-step per occurrence; entries in [0,1], column sums, and support containment are "
+         "asserted regardless. Cases where a value comes within 1e-4 of epsilon are discarded and counted. Exploration.",
+    note="float32 accumulation in the kernels vs float64 reference bounds the tolerance; multiset kernel offsets are fixed to 0 here.",
+    ref="7/C11")
+
 PENDING_REASON = "check not built yet in this revision of /verif (planned, see DESIGN.md section 7)"
 
 
